@@ -1,5 +1,6 @@
 pub mod cli;
 pub mod ctx;
+pub mod exec;
 pub mod extract;
 pub mod heapmon;
 pub mod inject_ops;
@@ -32,6 +33,9 @@ use serde_json::Value;
 
 pub fn run_property(ctx: &Ctx, rep: &mut Report) -> Result<(), String> {
     match ctx.property.as_str() {
+        "C01" => props::c01::run_c01(ctx, rep),
+        "C02" => props::c01::run_c02(ctx, rep),
+        "C09" => props::c01::run_c09(ctx, rep),
         "C03" => props::c03::run_c03(ctx, rep),
         "C04" => props::c03::run_c04(ctx, rep),
         "C05" => props::c05::run(ctx, rep),
@@ -57,6 +61,7 @@ pub fn run_property(ctx: &Ctx, rep: &mut Report) -> Result<(), String> {
 pub fn replay_case(case: &Value, ctx: &Ctx) -> Result<Vec<Violation>, String> {
     let _ = ctx;
     match case["property"].as_str().unwrap_or("") {
+        "C01" | "C02" | "C09" => Ok(props::c01::replay(case)),
         "C03" | "C04" => Ok(props::c03::replay(case)),
         "C05" => Ok(props::c05::replay(case)),
         "C06" => Ok(props::c06::replay(case)),
